@@ -21,39 +21,39 @@ pub const FILLERS: &[&str] = &["", " ", " /*c*/\n", "/*a*//*b*/", "/*c*/ "];
 /// F float expression operand, A call argument value, Q inside double quotes, N %nrstr text,
 /// V macro variable name position
 const CONTEXTS: &[(char, &str, char)] = &[
-    ('S', "%macro m;~{} %mend;", 'S'),
-    ('S', "%macro m(~a,~b~=~1)~/~des=\"x\";~{} %mend m;", 'S'),
-    ('S', "%do;~{} %end;", 'S'),
-    ('S', "%do i=1 %to 3;~{} %end;", 'S'),
+    ('S', "%macro m~;~{} %mend~;", 'S'),
+    ('S', "%macro m~(~a~,~b~=~1~)~/~des=\"x\"~;~{} %mend m~;", 'S'),
+    ('S', "%do~;~{} %end~;", 'S'),
+    ('S', "%do i=1 %to 3~;~{} %end;", 'S'),
     ('S', "%do i~=~1 %to 9 %by 2;~{} %end;", 'S'),
     ('S', "%do %v=1 %to 3;~{} %end;", 'S'),
     ('S', "%do &v.i~=~1 %to 3;~{} %end;", 'S'),
     ('S', "%do i&j=1 %to 3;~{} %end;", 'S'),
-    ('S', "%do %while(~&i<3);~{} %end;", 'S'),
-    ('S', "%do %until(&i ge 3);~{} %end;", 'S'),
+    ('S', "%do %while~(~&i<3~)~;~{} %end;", 'S'),
+    ('S', "%do %until~(~&i ge 3~)~;~{} %end~;", 'S'),
     ('S', "%if &a %then~%do~;~{} %end;", 'S'),
-    ('S', "%if &a=1 %then %do; %end;~%else %do;~{} %end;", 'S'),
+    ('S', "%if &a=1 %then %do; %end;~%else~%do~;~{} %end;", 'S'),
     ('S', "data a;~{} run;", 'S'),
     ('S', "%let a~=~{};", 'T'),
-    ('S', "%put {};", 'T'),
-    ('S', "x={};", 'O'),
-    ('S', "%m~(~{});", 'A'),
+    ('S', "%put {}~;", 'T'),
+    ('S', "x~=~{}~;", 'O'),
+    ('S', "%m~(~{}~)~;", 'A'),
     ('S', "%m(a~=~{});", 'A'),
     ('S', "%m(1,~{});", 'A'),
-    ('S', "%if {} %then %put a;", 'E'),
+    ('S', "%if ~{}~%then~%put a;", 'E'),
     ('S', "%do i=~{} %to 5; %end;", 'E'),
     ('S', "%do i=1 %to ~{}; %end;", 'E'),
-    ('S', "%do %while~(~{}); %end;", 'E'),
+    ('S', "%do %while~(~{}~)~; %end;", 'E'),
     ('S', "y=\"{}\";", 'Q'),
     ('S', "%let b=\"{}\";", 'Q'),
     ('S', "%let {}=1;", 'V'),
-    ('S', "%global {};", 'V'),
-    ('T', "%eval~(~{})", 'E'),
-    ('T', "%sysevalf(~{})", 'F'),
+    ('S', "%global {}~;", 'V'),
+    ('T', "%eval~(~{}~)", 'E'),
+    ('T', "%sysevalf~(~{}~)", 'F'),
     ('T', "%sysevalf({}~,~ceil)", 'F'),
     ('T', "%upcase~(~{})", 'A'),
     ('T', "%scan(~{},~1~)", 'A'),
-    ('T', "%scan(a b,~{})", 'E'),
+    ('T', "%scan(a b~,~{}~)", 'E'),
     ('T', "%scan(a b,~1,~{})", 'A'),
     ('T', "%substr(abc,~{}~,~1~)", 'E'),
     ('T', "%sysfunc~(~f~(~{}))", 'F'),
@@ -1105,6 +1105,33 @@ fn c14_items(tier: Tier) -> Vec<Deletion> {
                     );
                 }
             }
+            // characters whose code point, truncated to one byte, is the deleted delimiter
+            for alias in ["\u{43d}", "\u{13d}", "\u{4e3d}"] {
+                for name in ["n", "&x."] {
+                    let sep = if f.contains(char::is_whitespace) { (*f).to_string() } else { format!(" {f}") };
+                    add("let-assign", format!("%let {name}{sep}"), format!("{alias};{fo}"), E::MissingExpectedAssign, T::ASSIGN, None, vec![]);
+                    add("do-assign", format!("%do {name}{sep}"), format!("{alias} %to 3; %end;{fo}"), E::MissingExpectedAssign, T::ASSIGN, None, vec![]);
+                }
+            }
+            for alias in ["\u{42f}", "\u{12f}", "\u{4e2f}"] {
+                add(
+                    "copy-slash",
+                    format!("%copy m{}", if f.contains(char::is_whitespace) { (*f).to_string() } else { format!(" {f}") }),
+                    format!("{alias}source;{fo}"),
+                    E::MissingExpectedFSlash,
+                    T::FSLASH,
+                    None,
+                    vec![],
+                );
+            }
+            if !fo.is_empty() && !fo.starts_with(';') {
+                for alias in ["\u{43b}", "\u{13b}"] {
+                    let allowed_tail = vec![E::MissingExpectedSemiOrEOF];
+                    let sep = if f.contains(char::is_whitespace) { (*f).to_string() } else { format!(" {f}") };
+                    add("end-semi", format!("%do; %end{sep}"), format!("{alias}{fo}"), E::MissingExpectedSemiOrEOF, T::SEMI, None, allowed_tail.clone());
+                    add("while-semi", format!("%do %while(&i<3){f}"), format!("{alias}{fo} %end;"), E::MissingExpectedSemiOrEOF, T::SEMI, None, allowed_tail);
+                }
+            }
             add(
                 "copy-slash",
                 format!("%copy m{}", if f.contains(char::is_whitespace) { (*f).to_string() } else { format!(" {f}") }),
@@ -1132,11 +1159,18 @@ fn c14_items(tier: Tier) -> Vec<Deletion> {
         let hidden = matches!(t, T::KwmStr | T::KwmNrStr);
         let head = format!("%{}", kw.to_ascii_lowercase());
         for f in FILLERS {
-            for arg in ["&v", "'a'", "1", "(1)"] {
+            for arg in ["&v", "'a'", "1", "(1)", "\u{428}", "\u{128}"] {
                 if arg == "(1)" {
                     continue; // would supply the parenthesis
                 }
-                let sep = if f.is_empty() && arg == "1" { " " } else { f };
+                let spaced = format!(" {f}");
+                let sep: &str = if arg == "1" && f.is_empty() {
+                    " "
+                } else if !arg.is_ascii() && !f.contains(char::is_whitespace) {
+                    &spaced
+                } else {
+                    f
+                };
                 for fo in [")", ");", ") x"] {
                     let mut allowed = vec![E::MissingExpectedRParen, E::MissingExpectedComma, E::MissingSysfuncFuncName, E::MissingExpectedLParen];
                     if hidden {
